@@ -20,6 +20,9 @@ type AuthHost struct {
 	Name        string `json:"name"`
 	Scheme      string `json:"scheme"`                 // none | basic | bearer-dist | bearer-oauth2
 	ForeignAuth bool   `json:"foreign_auth,omitempty"` // token realm on auth.example instead of the registry host
+	// RealmOn (1-based, 0 = no): the token realm lives on that other registry host, behind its
+	// authenticating front end: it challenges anonymous callers with Basic and knows that host's users too
+	RealmOn int `json:"realm_on,omitempty"`
 	ChangeAfter int    `json:"change_after,omitempty"` // after this many requests to the host the scheme becomes NewScheme
 	NewScheme   string `json:"new_scheme,omitempty"`
 	ScopeStyle  int    `json:"scope_style,omitempty"`  // how the challenge renders the scope string
@@ -125,6 +128,15 @@ func (p *authProp) Gen(r *Rand, tier string, idx int) any {
 			ap.Hosts[a].Redirect, ap.Hosts[a].RedirectTo = false, b+1
 			ap.Hosts[a].ChangeAfter, ap.Hosts[a].NewScheme = 0, ""
 			ap.Hosts[b].ChangeAfter, ap.Hosts[b].NewScheme = 0, ""
+		}
+	}
+	if r.Chance(0.12) {
+		// one registry's token realm lives on another registry's host
+		a := r.Intn(nh)
+		b := (a + 1 + r.Intn(nh-1)) % nh
+		if !ap.Hosts[b].NoCred && ap.Hosts[a].RedirectTo == 0 {
+			ap.Hosts[a].Scheme, ap.Hosts[a].ForeignAuth, ap.Hosts[a].RealmOn = "bearer-dist", false, b+1
+			ap.Hosts[a].ChangeAfter, ap.Hosts[a].NewScheme, ap.Hosts[a].PresetToken = 0, "", false
 		}
 	}
 	ap.Cache = pick(r, []string{"none", "shared", "shared", "single"})
@@ -271,6 +283,9 @@ func (w *authWorld) realmURL(i int) string {
 	host := h.Name
 	if h.ForeignAuth {
 		host = authRealmHost
+	}
+	if h.RealmOn > 0 {
+		host = w.ap.Hosts[h.RealmOn-1].Name
 	}
 	return fmt.Sprintf("https://%s/token/%d", host, i)
 }
@@ -455,6 +470,9 @@ func (w *authWorld) RoundTrip(req *http.Request) (*http.Response, error) {
 			scopes = req.URL.Query()["scope"]
 			u, pw, has := req.BasicAuth()
 			okCred = !has || (u == w.user(i) && pw == w.pass(i))
+			if b := w.ap.Hosts[i].RealmOn; b > 0 && has && u == w.user(b-1) && pw == w.pass(b-1) {
+				okCred = true // a user of the host the realm lives on
+			}
 			if !has {
 				okCred = false // this world's registries are private
 			}
@@ -470,6 +488,9 @@ func (w *authWorld) RoundTrip(req *http.Request) (*http.Response, error) {
 		}
 		rec.tokenKey = fmt.Sprintf("%s|%s", w.realmURL(i), strings.Join(canonScopes(scopes), " "))
 		if !okCred {
+			if w.ap.Hosts[i].RealmOn > 0 {
+				return resp(401, http.Header{"Www-Authenticate": {`Basic realm="token service"`}}, `{"errors":[{"code":"UNAUTHORIZED"}]}`)
+			}
 			return resp(401, nil, `{"errors":[{"code":"UNAUTHORIZED"}]}`)
 		}
 		w.seq++
